@@ -1,6 +1,6 @@
 import Logrange.Props.C07Reach
 import Logrange.Proofs.PersistCodec
-import Logrange.Model.PersistJson
+import Logrange.Proofs.PersistStable
 /-!
 # C07 — the codec contract and `encoding/json`
 -/
@@ -83,5 +83,68 @@ theorem cex_invalid_utf8_tag_lines_refuse_restart (K : Codecs) (hK : K.Laws) :
   have hj : (journalsOnDisk [([49], [⟨1, [10]⟩]), ([50], [⟨1, [11]⟩])]).all (tmapHasSrc [(sanitize tagFF, [50])]) = false := by
     decide +kernel
   simp [hdec, hj]
+
+/-! ## F-C07-901 / F-C07-902 repaired (a7918dd, 3cf6638): strings that `encoding/json` would change are refused at creation
+
+`cex_invalid_utf8_tag_lines_refuse_restart` above is the **unrepaired branch**: it runs `step`, the operations without their
+guards. The guards (`enabled`) follow two regenerated facts; both branches of each are stated so that the file builds on a
+tree with and on a tree without the repair, and the positive theorems consume the facts one-sidedly (a revert breaks them). -/
+
+/-- the guard of partition creation, both branches: with the repair a tag line that `encoding/json` would change is never
+created (the witnesses of F-C07-901 are refused at write time); without it, it is created like any other -/
+theorem invalid_utf8_tag_line_refused_or_created :
+    (getOrCreateJournalRefusesInvalidUtf8 = true ∧
+      ∀ (parseOk : TagLine → Bool) (s : Srv) (tags : TagLine) (src : Src), changedByJson tags = true →
+        enabled parseOk s (.newPartition tags src) = false) ∨
+    (getOrCreateJournalRefusesInvalidUtf8 = false ∧
+      ∀ (parseOk : TagLine → Bool) (s : Srv) (tags : TagLine) (src : Src),
+        enabled parseOk s (.newPartition tags src) = (parseOk tags && !(s.mem.tmap.any (fun e => e.1 == tags)))) := by
+  cases h : getOrCreateJournalRefusesInvalidUtf8 with
+  | true => left; exact ⟨rfl, fun parseOk s tags src hc => by simp [enabled, h, hc]⟩
+  | false => right; exact ⟨rfl, fun parseOk s tags src => by simp [enabled, h]⟩
+
+/-- the same for CREATE / ENSURE PIPE (F-C07-902) -/
+theorem invalid_utf8_pipe_refused_or_created :
+    (newPPipeRefusesInvalidUtf8 = true ∧
+      ∀ (parseOk : TagLine → Bool) (s : Srv) (p : Pipe), (changedByJson p.name || changedByJson p.tags || changedByJson p.flt) = true →
+        enabled parseOk s (.createPipe p) = false) ∨
+    (newPPipeRefusesInvalidUtf8 = false ∧ ∀ (parseOk : TagLine → Bool) (s : Srv) (p : Pipe), enabled parseOk s (.createPipe p) = true) := by
+  cases h : newPPipeRefusesInvalidUtf8 with
+  | true => left; exact ⟨rfl, fun parseOk s p hc => by simp [enabled, h, hc]⟩
+  | false => right; exact ⟨rfl, fun parseOk s p => by simp [enabled, h]⟩
+
+/-- the witnesses of the two findings are refused now -/
+theorem witnesses_refused (parseOk : TagLine → Bool) (s : Srv) (src : Src) :
+    enabled parseOk s (.newPartition tagFF src) = false ∧ enabled parseOk s (.newPartition tagFE src) = false ∧
+    enabled parseOk s (.createPipe ⟨[112, 0xFF], [], []⟩) = false := by
+  have h1 : getOrCreateJournalRefusesInvalidUtf8 = true := by decide
+  have h2 : newPPipeRefusesInvalidUtf8 = true := by decide
+  have c1 : changedByJson tagFF = true := by decide +kernel
+  have c2 : changedByJson tagFE = true := by decide +kernel
+  have c3 : changedByJson [112, 0xFF] = true := by decide +kernel
+  simp [enabled, h1, h2, c1, c2, c3]
+
+/-- **Every string a reachable state persists survives `encoding/json`** (F-C07-901/902 repaired): after any history every
+tag line and every pipe name / condition in memory is unchanged by `sanitize` and the tag lines are pairwise different, so the
+codec the server really uses — a lawful codec behind `encoding/json`'s string treatment, `jsonish K` — writes what `K` writes
+and reads back exactly the tag index and the pipe definitions: the codec contract, the one hypothesis of the restart theorems
+that `encoding/json` does not satisfy in general, holds on every value that is ever saved. No UTF-8 hypothesis on the history. -/
+theorem stored_strings_survive_json_reachable (K : Codecs) (hK : K.Laws) (parseOk : TagLine → Bool) (evs : List Ev)
+    (hok : evs.all Ev.ok = true) :
+    StableMem (reach K parseOk evs).mem ∧
+    (jsonish K).tidx.dec ((jsonish K).tidx.enc (reach K parseOk evs).mem.tmap) = some (reach K parseOk evs).mem.tmap ∧
+    (jsonish K).pipes.dec ((jsonish K).pipes.enc ((reach K parseOk evs).mem.pipes.map (·.cfg)))
+      = some ((reach K parseOk evs).mem.pipes.map (·.cfg)) ∧
+    (jsonish K).tidx.enc (reach K parseOk evs).mem.tmap = K.tidx.enc (reach K parseOk evs).mem.tmap ∧
+    (jsonish K).pipes.enc ((reach K parseOk evs).mem.pipes.map (·.cfg)) = K.pipes.enc ((reach K parseOk evs).mem.pipes.map (·.cfg)) := by
+  have h1 : getOrCreateJournalRefusesInvalidUtf8 = true := by decide
+  have h2 : newPPipeRefusesInvalidUtf8 = true := by decide
+  have hi := Logrange.Props.C07Reach.wf_init K parseOk
+  have hs0 : StableMem (initSrv K parseOk).mem := by
+    rw [hi.2.2.1]
+    exact ⟨fun e he => by simp [Mem.empty] at he, by simp [Mem.empty], fun p hp => by simp [Mem.empty] at hp⟩
+  have hs := stable_run hK h1 h2 evs _ hi.2.1 hs0 hok
+  have hc := codec_contract_on_stable K hK _ hs
+  exact ⟨hs, hc.2.1, hc.2.2.2, hc.1, hc.2.2.1⟩
 
 end Logrange.Props.C07Codec
